@@ -25,7 +25,9 @@ def M(fns, msgs=1, supply=2, ctr=1, **kw):
 
 LEDGER = {
     "C01": dict(profile="transfer", preds=["P01_Exact", "P01_DeliveryAccepted", "P01_DeliveryNominal", "P01_RefundRestores", "P01_FailKeeps", "Conservation", "NoNegative"],
-                mc=([M("ESDTTransfer,issue,ESDTNFTTransfer,create"), M("ESDTTransfer,issue,flags,MultiESDTNFTTransfer")],
+                mc=([M("ESDTNFTTransfer,create,flags", hs=("u0a", "u1a"), ptoks=("4e",), pshards=(0, 1), freeze=()),
+                     M("ESDTTransfer,issue,MultiESDTNFTTransfer,flags", hs=("u0a", "u1a"), pshards=(1,)),
+                     M("ESDTTransfer,issue,ESDTNFTTransfer,create")],
                     [M("ESDTTransfer,issue,ESDTNFTTransfer,MultiESDTNFTTransfer,create", msgs=2), M("ESDTTransfer,issue,flags,MultiESDTNFTTransfer,ESDTNFTTransfer,create", pshards=(0, 1))]),
                 need=dict(tok_ok=20, deliver_ok=5, deliver_err=1, refund_ok=1, overdraft_rej=1, alias_rej=1)),
     "C02": dict(profile="supply", preds=["P02_Delta", "P02_Others", "P02_NoOverdraft", "NoNegative", "Conservation"],
@@ -37,7 +39,8 @@ LEDGER = {
                     [M("mintburn,create,roles,handover,acct", supply=2), M("create,handover,metaops,flags,ESDTNFTTransfer", ctr=2)]),
                 need=dict(role_ok=10, role_rej=5, acct_ok=3, acct_rej=2, handover_ok=1, flag_ok=3)),
     "C04": dict(profile="freeze", preds=["P04_Immobile", "P04_NoCreditWhilePaused", "P04_FlagOnly", "P04_Restores"],
-                mc=([M("ESDTTransfer,flags,mintburn,issue", supply=3)],
+                mc=([M("ESDTNFTTransfer,MultiESDTNFTTransfer,create,flags", hs=("u0a", "u1a"), ptoks=("4e",), pshards=(0, 1), freeze=()),
+                     M("ESDTTransfer,MultiESDTNFTTransfer,flags,mintburn,issue", hs=("u0a", "u1a"), pshards=(1,), supply=3)],
                     [M("ESDTTransfer,ESDTNFTTransfer,MultiESDTNFTTransfer,flags,mintburn,create,issue", supply=3, freeze=("u0a", "u1a"), ptoks=("46", "4e"), pshards=(0, 1))]),
                 need=dict(frozen_rej=3, paused_rej=3, flag_ok=10, refund_ok=1)),
     "C05": dict(profile="kv", preds=["P05_Protected", "P05_KVExact", "P05_Frame"],
@@ -45,7 +48,7 @@ LEDGER = {
                     [M("kv,ESDTTransfer,ESDTNFTTransfer,create,acct,flags,roles,handover")]),
                 need=dict(kv_ok=10, kv_prot_rej=5, tok_ok=5)),
     "C06": dict(profile="gas", flags=["-gassweep"], preds=["P06_NoGasCreated", "P06_Underfunded"],
-                mc=([M("ESDTTransfer,kv,create,ESDTNFTTransfer", gas=(0, 9, 10, 11, 60, 1000))],
+                mc=([M("ESDTTransfer,kv,create,ESDTNFTTransfer,MultiESDTNFTTransfer", gas=(0, 9, 10, 11, 60, 1000), hs=("u0a", "u1a"))],
                     [M("ESDTTransfer,kv,create,metaops,mintburn,acct,ESDTNFTTransfer,MultiESDTNFTTransfer", gas=(0, 9, 10, 11, 20, 60, 61, 1000))]),
                 need=dict(gas_max=20, gas_rej=20, priced=50)),
     "C07": dict(profile="nonce", preds=["P07_ReturnedNonce", "P07_Handover", "P07_CtrOnlyByCreate", "CounterWithRole"],
@@ -57,7 +60,7 @@ LEDGER = {
                     [M("create,metaops,ESDTNFTTransfer,MultiESDTNFTTransfer", msgs=2, ctr=2)]),
                 need=dict(create_ok=10, meta_fn_ok=2, tok_ok=15, deliver_ok=3)),
     "C09": dict(profile="payable", preds=["P09_Admissible", "P09_Rejected"],
-                mc=([M("ESDTTransfer,ESDTNFTTransfer,create,issue", hs=("u0a", "u1a", "c1a"))],
+                mc=([M("ESDTTransfer,ESDTNFTTransfer,MultiESDTNFTTransfer,create,issue", hs=("u0a", "u1a", "c1a"))],
                     [M("ESDTTransfer,ESDTNFTTransfer,MultiESDTNFTTransfer,create,issue", msgs=2, hs=("u0a", "u0b", "u1a", "c1a"))]),
                 need=dict(payable_rej=3, tok_ok=20, nonpay_exempt=1)),
     "C10": dict(profile="transfer", preds=["P10_ParserEqualsLedger", "P10_RoundTrip", "P10_Accepted"],
@@ -76,7 +79,7 @@ LEDGER = {
                     [M("ESDTTransfer,issue,ESDTNFTTransfer,MultiESDTNFTTransfer,mintburn,create,metaops,flags,roles,handover")]),
                 need=dict(tok_ok=10, supply_ok=10, flag_ok=5, create_ok=5)),
     "C16": dict(profile="gas", flags=["-gassweep"], preds=["P16_Price", "P16_ProbePrice", "P16_Charged"],
-                mc=([M("sched,ESDTTransfer,kv,create,ESDTNFTTransfer", gas=(60, 1000))],
+                mc=([M("sched,ESDTTransfer,kv,create,ESDTNFTTransfer,MultiESDTNFTTransfer", gas=(60, 1000), hs=("u0a", "u1a"))],
                     [M("sched,ESDTTransfer,kv,create,metaops,mintburn,acct,ESDTNFTTransfer,MultiESDTNFTTransfer", gas=(60, 1000))]),
                 need=dict(sched_ok=3, sched_rej=2, priced=80, probe=100)),
     "C17": dict(profile="mixed", flags=["-faults"], preds=["P17_FaultIsError", "P17_NoPanic"],
@@ -151,24 +154,16 @@ def fix_tlc_world(w):
     return w
 
 
-def inject_replay(run, mc, preds, label, target):
-    """One implementation test per transition of the bounded model's state graph: TLC prints every explored transition (pre-state,
-    call, verdict); the harness injects the pre-state into a real world (checking Project(Inject(s)) = s), runs the call and compares
-    the verdict; a sample of `target` transitions plus every disagreement is validated by TLC in full."""
-    d = run.spec_dir("emit-" + label)
+def model_and_emit(run, mc, label):
+    """(M) + generation in one TLC run: exhaustive check of the bounded configuration (every invariant and direct predicate on every
+    transition, rejected calls included) that also prints every accepted transition and a sample of the rejected near-misses."""
     kw = dict(mc["kw"])
     kw.update(rejected=True, emit=True)
-    if len(kw.get("gas", (1000,))) > 2:
-        # the gas points multiply the transitions: the emission run keeps the two most interesting ones (just below a charge, ample)
-        kw["gas"] = (kw["gas"][1], kw["gas"][-1])
-    if run.tier == "quick":
-        # the quick tier injects the state graph of a two-holder version of the configuration
-        kw.update(rejsample=12)
-        if "hs" not in kw:
-            kw["hs"] = ("u0a", "u1a")
-    rc, o = run.tlc(d, "EsdtMC", mc_cfg(mc["fns"], mc["msgs"], mc["supply"], mc["ctr"], checked=["P01_FailKeeps"], **kw), workers=1, timeout=3000)
-    if "Model checking completed. No error has been found." not in o:
-        raise Infra("transition emission run failed:\n" + tail_errors(o))
+    if len(kw.get("gas", (1000,))) > 2 and run.tier == "quick":
+        kw["gas"] = (kw["gas"][1], kw["gas"][-1])       # quick: the two most interesting gas points (just below a charge, ample)
+    kw.setdefault("rejsample", 12 if run.tier == "quick" else 6)
+    ok, o, info = run.model_check("EsdtMC", mc_cfg(mc["fns"], mc["msgs"], mc["supply"], mc["ctr"], **kw), name="EsdtMC-%s-%s" % (run.pid, label),
+                                  timeout=1200 if run.tier == "quick" else 7200)
     tf = os.path.join(run.dir, "trans-%s.ndjson" % label)
     n = 0
     with open(tf, "w") as out:
@@ -177,9 +172,15 @@ def inject_replay(run, mc, preds, label, target):
             t["w"] = fix_tlc_world(t["w"])
             out.write(json.dumps(t) + "\n")
             n += 1
-    del o
     if n == 0:
-        raise Infra("no transition emitted")
+        raise Infra("no transition emitted by the model run")
+    return tf, n
+
+
+def inject_replay(run, tf, n, preds, label, target):
+    """One implementation test per transition of the bounded model's state graph: the harness injects each pre-state into a real world
+    (checking Project(Inject(s)) = s), runs the call and compares the verdict; a sample of `target` transitions plus every disagreement
+    is validated by TLC in full."""
     trace = os.path.join(run.dir, "inject-%s.ndjson" % label)
     st = run.harness(["inject", "-in", tf, "-out", trace, "-every", str(max(1, n // target))])
     if st["badinject"]:
@@ -191,7 +192,8 @@ def inject_replay(run, mc, preds, label, target):
     run.cov["model_transitions_executed_on_impl"] = run.cov.get("model_transitions_executed_on_impl", 0) + st["traces"]
     run.cov["model_transitions_validated_by_tlc"] = run.cov.get("model_transitions_validated_by_tlc", 0) + done["counters"].get("replayed", 0)
     run.cov["model_transition_verdict_disagreements"] = run.cov.get("model_transition_verdict_disagreements", 0) + st["disagree"]
-    os.remove(tf)
+    if not run.violations:
+        os.remove(tf)
     return st
 
 
@@ -201,23 +203,17 @@ SIZES = {"quick": dict(traces=16, steps=140), "thorough": dict(traces=240, steps
 def run_ledger(run):
     spec = LEDGER[run.pid]
     run.build_harness()
-    # (M) exhaustive model check of the bounded configuration(s)
-    for n, mc in enumerate(spec["mc"][0 if run.tier == "quick" else 1]):
-        run.model_check("EsdtMC", mc_cfg(mc["fns"], mc["msgs"], mc["supply"], mc["ctr"], **mc["kw"]), name="EsdtMC-%s-%d" % (run.pid, n),
-                        timeout=900 if run.tier == "quick" else 7200)
+    # (M) exhaustive model check of the bounded configuration(s); the same runs emit the state graph's transitions
+    cfgs = spec["mc"][0 if run.tier == "quick" else 1]
+    emitted = [model_and_emit(run, mc, str(n)) for n, mc in enumerate(cfgs)]
     for f in spec.get("extra_mc", []):
         f(run)
-    # specification -> code: replay of model behaviours
-    total_replay = 0
-    for n, mc in enumerate(spec["mc"][0 if run.tier == "quick" else 1]):
-        if run.tier == "quick" and n > 0:
-            break
-        nw = 30 if run.tier == "quick" else 400
-        done = replay_walks(run, mc, nw, 12 if run.tier == "quick" else 16, spec["preds"], "%d" % n)
-        total_replay += done["counters"].get("replayed", 0)
-    run.require(total_replay >= 80, "replayed model steps=%d < 80" % total_replay)
-    inj = spec["mc"][0 if run.tier == "quick" else 1][spec.get("inject", 0)]
-    inject_replay(run, inj, spec["preds"], "0", 1200 if run.tier == "quick" else 12000)
+    # specification -> code (a): one implementation test per transition of the model's state graph (state injection)
+    for n, (tf, cnt) in enumerate(emitted):
+        inject_replay(run, tf, cnt, spec["preds"], str(n), (1500 if run.tier == "quick" else 16000) // len(cfgs))
+    # specification -> code (b): replay of simulated model behaviours from the model's initial world
+    done = replay_walks(run, cfgs[0], 30 if run.tier == "quick" else 400, 12 if run.tier == "quick" else 16, spec["preds"], "0")
+    run.require(done["counters"].get("replayed", 0) >= 80, "replayed model steps=%d < 80" % done["counters"].get("replayed", 0))
     # (T) recorded behaviours of the real code
     sz = SIZES[run.tier]
     scale = spec.get("scale", 1.0)
